@@ -46,7 +46,7 @@ int g_pi_n; size_t g_pi_off0, g_pi_off1, g_pi_av0, g_pi_av1; spec_int g_pi_cur, 
 static int secp256k1_der_parse_integer(secp256k1_scalar *r, const unsigned char **sig, const unsigned char *sigend)
 __CPROVER_requires(__CPROVER_w_ok(r, sizeof(*r)) && __CPROVER_rw_ok(sig, sizeof(*sig)))
 __CPROVER_requires(__CPROVER_same_object(*sig, sigend) && __CPROVER_POINTER_OFFSET(*sig) <= __CPROVER_POINTER_OFFSET(sigend) && (*sig == sigend || __CPROVER_r_ok(*sig, sigend - *sig)))
-__CPROVER_requires(g_pi_n == 0 || g_pi_n == 1)
+__CPROVER_requires(g_pi_n >= 0 && g_pi_n < 1000)   /* any number of calls; the first two are recorded */
 __CPROVER_assigns(*r, *sig, g_pi_n, g_pi_off0, g_pi_off1, g_pi_av0, g_pi_av1, g_pi_cur, g_pi_I0, g_pi_I1, g_pi_v0, g_pi_v1)
 __CPROVER_ensures(g_pi_n == __CPROVER_old(g_pi_n) + 1)
 __CPROVER_ensures(PI_POST_ABS(PEQ_DFCC, __CPROVER_return_value, r, *sig, __CPROVER_old(*sig), (size_t)(sigend - __CPROVER_old(*sig)), g_pi_cur))
